@@ -74,7 +74,12 @@ package main
 //@   at call Text#1: assert arg2 == 200
 //@   modifies heap, $base, $dayErr, $lines, $readerErr, $scanOK, $total
 
+// The object a chart or a merged day is stored under: the day's date, or the first
+// and last day of the range joined by an underscore, plus ".json" - a single path
+// element, so it resolves inside its bucket's directory.
 //@ contract fileName
+//@   ensures start.Equal(end) ==> result == end.Format("2006-01-02") + ".json"
+//@   ensures !start.Equal(end) ==> result == start.Format("2006-01-02") + "_" + end.Format("2006-01-02") + ".json"
 //@   modifies nothing
 
 //@ contract parseDateRange
